@@ -51,8 +51,37 @@ func (vc *FnVC) srcText(in ssa.Instruction) string {
 	return vc.prog.sourceText(in)
 }
 
+// freshNames returns the identifiers x for which expression e asserts isfresh(x) as an
+// unconditional (top-level) conjunct.
+func freshNames(e SExpr) []string {
+	switch x := e.(type) {
+	case *SBinary:
+		if x.Op == "&&" {
+			return append(freshNames(x.X), freshNames(x.Y)...)
+		}
+	case *SCall:
+		if x.Fun == "isfresh" && len(x.Args) == 1 {
+			if id, ok := x.Args[0].(*SIdent); ok {
+				return []string{id.Name}
+			}
+		}
+	}
+	return nil
+}
+
+// registerFresh treats an existing ref term (e.g. a callee result declared fresh) as a
+// new allocation.
+func (vc *FnVC) registerFresh(a string) {
+	vc.newAllocFacts(a)
+}
+
 func (vc *FnVC) newAllocRef(prefix string) string {
 	a := vc.freshConst(prefix, "Int")
+	vc.newAllocFacts(a)
+	return a
+}
+
+func (vc *FnVC) newAllocFacts(a string) {
 	vc.fact(fmt.Sprintf("(> %s 0)", a))
 	vc.decl("allocated0", "(declare-fun allocated0 (Int) Bool)")
 	vc.fact(fmt.Sprintf("(not (allocated0 %s))", a))
@@ -77,7 +106,7 @@ func (vc *FnVC) newAllocRef(prefix string) string {
 				s = fmt.Sprintf("(s.arr %s)", t.S)
 			}
 		}
-		if s != "" && !seen[s] && !vc.freshRoots[s] {
+		if s != "" && s != a && !seen[s] && !vc.freshRoots[s] {
 			seen[s] = true
 			olds = append(olds, s)
 		}
@@ -88,7 +117,6 @@ func (vc *FnVC) newAllocRef(prefix string) string {
 	}
 	vc.allocRefs = append(vc.allocRefs, a)
 	vc.freshRoots[a] = true
-	return a
 }
 
 // locOf returns the scalar location addressed by pointer value addr, if it is one
@@ -187,7 +215,8 @@ func (vc *FnVC) instr(in ssa.Instruction, idx int) {
 	case *ssa.MakeSlice:
 		ln := vc.val(in.Len)
 		cp := vc.val(in.Cap)
-		vc.obAssert("bounds", "bounds@"+vc.srcText(in), "make: 0 <= len <= cap", fmt.Sprintf("(and (<= 0 %s) (<= %s %s) (<= %s 281474976710656))", ln.S, ln.S, cp.S, cp.S), in.Pos())
+		vc.obAssert("bounds", "bounds@"+vc.srcText(in), "make: 0 <= len <= cap", fmt.Sprintf("(and (<= 0 %s) (<= %s %s))", ln.S, ln.S, cp.S), in.Pos())
+		vc.assume("make() of a slice succeeds (allocation-size panics / out-of-memory are not modelled)")
 		arr := vc.newAllocRef("mk$" + mangle(in.Name()))
 		el := in.Type().Underlying().(*types.Slice).Elem()
 		if !isObjectType(el) {
@@ -439,8 +468,8 @@ func (vc *FnVC) binop(in *ssa.BinOp) {
 		}
 		if isString {
 			vc.decl("strlt", "(declare-fun strlt (Int Int) Bool)")
-			vc.decl("strlt$ax", "(assert (forall ((a Int) (b Int)) (! (and (not (and (strlt a b) (strlt b a))) (or (strlt a b) (strlt b a) (= a b))) :pattern ((strlt a b)))))")
-			vc.decl("strlt$tr", "(assert (forall ((a Int) (b Int) (c Int)) (! (=> (and (strlt a b) (strlt b c)) (strlt a c)) :pattern ((strlt a b) (strlt b c)))))")
+			vc.declAxiom("strlt$ax","(assert (forall ((a Int) (b Int)) (! (and (not (and (strlt a b) (strlt b a))) (or (strlt a b) (strlt b a) (= a b))) :pattern ((strlt a b)))))")
+			vc.declAxiom("strlt$tr","(assert (forall ((a Int) (b Int) (c Int)) (! (=> (and (strlt a b) (strlt b c)) (strlt a c)) :pattern ((strlt a b) (strlt b c)))))")
 			vc.assume("string identity: equal strings are represented by equal ids (string '<' is an uninterpreted strict total order on ids)")
 			var e string
 			switch in.Op {
@@ -495,6 +524,16 @@ func (vc *FnVC) binop(in *ssa.BinOp) {
 				vc.define(in, fmt.Sprintf("(div %s %s)", x.S, y.S))
 			} else {
 				vc.define(in, fmt.Sprintf("(mod %s %s)", x.S, y.S))
+			}
+			return
+		}
+		if c, isC := isConstVal(in.Y); isC && c.Sign() > 0 {
+			// positive constant divisor: truncated division cannot wrap
+			qc := fmt.Sprintf("(ite (>= %s 0) (div %s %s) (- (div (- %s) %s)))", x.S, x.S, y.S, x.S, y.S)
+			if in.Op == token.QUO {
+				vc.define(in, qc)
+			} else {
+				vc.define(in, fmt.Sprintf("(- %s (* %s %s))", x.S, y.S, qc))
 			}
 			return
 		}
@@ -583,6 +622,20 @@ func (vc *FnVC) bitop(in *ssa.BinOp, x, y Term) {
 		vc.define(in, smtInt(r))
 		return
 	}
+	if in.Op == token.AND && !unsigned {
+		// two's complement: x & (2^k - 1) is the Euclidean remainder mod 2^k, also for negative x
+		v, c, isC := x, cy, yIsC
+		if xIsC {
+			v, c, isC = y, cx, true
+		}
+		if isC && c.Sign() > 0 {
+			c1 := new(big.Int).Add(c, big.NewInt(1))
+			if new(big.Int).And(c, c1).Sign() == 0 {
+				vc.define(in, fmt.Sprintf("(mod %s %s)", v.S, c1.String()))
+				return
+			}
+		}
+	}
 	if in.Op == token.AND && unsigned {
 		v, c, isC := x, cy, yIsC
 		if xIsC {
@@ -634,13 +687,35 @@ func (vc *FnVC) bitop(in *ssa.BinOp, x, y Term) {
 	}
 	if name == "andnot" {
 		vc.decl("bitandnot", "(declare-fun bitandnot (Int Int) Int)")
-		vc.decl("bitandnot$ax", "(assert (forall ((x Int) (y Int)) (! (=> (and (>= x 0) (>= y 0)) (and (>= (bitandnot x y) 0) (<= (bitandnot x y) x))) :pattern ((bitandnot x y)))))")
+		vc.declAxiom("bitandnot$ax","(assert (forall ((x Int) (y Int)) (! (=> (and (>= x 0) (>= y 0)) (and (>= (bitandnot x y) 0) (<= (bitandnot x y) x))) :pattern ((bitandnot x y)))))")
 		vc.define(in, fmt.Sprintf("(bitandnot %s %s)", x.S, y.S))
 		return
 	}
 	r := vc.define(in, vc.bitFun(name, x.S, y.S))
 	vc.fact(vc.inRange(r.S, t))
 	vc.bitUses = append(vc.bitUses, bitUse{name, x.S, y.S, r.S, t})
+	// bit-level facts bridged to arithmetic: operands with disjoint bit ranges
+	// (x a multiple of 2^k, y below 2^k) combine by addition; AND of such operands is 0.
+	bits, _ := intBits(t)
+	var ks []int
+	for k := 1; k < bits; k++ {
+		if bits <= 8 || k%4 == 0 {
+			ks = append(ks, k)
+		}
+	}
+	for _, k := range ks {
+		p := pow2(k).String()
+		for _, pr := range [][2]string{{x.S, y.S}, {y.S, x.S}} {
+			cond := fmt.Sprintf("(and (= (mod %s %s) 0) (< %s %s))", pr[0], p, pr[1], p)
+			switch name {
+			case "or", "xor":
+				vc.fact(fmt.Sprintf("(=> %s (= %s (+ %s %s)))", cond, r.S, pr[0], pr[1]))
+			case "and":
+				vc.fact(fmt.Sprintf("(=> %s (= %s 0))", cond, r.S))
+			}
+		}
+	}
+	vc.assume("bit-lemma bridge: for non-negative a, b with a a multiple of 2^k and b < 2^k: a|b == a^b == a+b and a&b == 0 (standard bit-vector fact, used as an arithmetic axiom)")
 }
 
 type bitUse struct {
